@@ -1075,7 +1075,7 @@ class BMPString(KnownMultiplierStringType):
 
 class GraphicString(KnownMultiplierStringType):
 
-    TAG = Tag.GENERAL_STRING
+    TAG = Tag.GRAPHIC_STRING
     ENCODING = 'latin-1'
 
 
